@@ -124,6 +124,8 @@ type Spelling struct {
 	AltName func() bool        // flip .name <-> ['name'] where both are possible
 	AltWild func() bool        // flip .* <-> [*]
 	NoRoot  func() bool        // omit the leading $ where allowed
+	// EmptyStep spells a slice without step in the three-part form `s:e:` (empty step) instead of `s:e`
+	EmptyStep func() bool
 }
 
 var Canon = Spelling{}
@@ -141,9 +143,10 @@ func (sp Spelling) int(v int64) string {
 	}
 	return sp.Int(v)
 }
-func (sp Spelling) altName() bool { return sp.AltName != nil && sp.AltName() }
-func (sp Spelling) altWild() bool { return sp.AltWild != nil && sp.AltWild() }
-func (sp Spelling) noRoot() bool  { return sp.NoRoot != nil && sp.NoRoot() }
+func (sp Spelling) altName() bool   { return sp.AltName != nil && sp.AltName() }
+func (sp Spelling) altWild() bool   { return sp.AltWild != nil && sp.AltWild() }
+func (sp Spelling) noRoot() bool    { return sp.NoRoot != nil && sp.NoRoot() }
+func (sp Spelling) emptyStep() bool { return sp.EmptyStep != nil && sp.EmptyStep() }
 
 func needsEscapeDot(r rune) bool {
 	switch {
@@ -229,6 +232,8 @@ func (s Sub) render(sp Spelling) string {
 	out := i64(s.Start) + sp.sp() + ":" + sp.sp() + i64(s.End)
 	if s.Step != nil {
 		out += sp.sp() + ":" + sp.sp() + i64(s.Step)
+	} else if sp.emptyStep() {
+		out += sp.sp() + ":" + sp.sp()
 	}
 	return out
 }
@@ -323,6 +328,45 @@ func joinSp(parts []string, sep string, sp Spelling) string {
 		}
 		b.WriteString(p)
 	}
+	return b.String()
+}
+
+// QuoteKeyHex spells key as a quoted bracket identifier in which characters are written as
+// JSON \uXXXX escapes (astral characters as surrogate pairs): mode 0 = every character, upper-case
+// hex; 1 = every character, lower-case hex; 2 = every second character, mixed case. All of them are
+// JSON-style escapings of the same key.
+func QuoteKeyHex(key string, dq bool, mode int) string {
+	q := byte('\'')
+	if dq {
+		q = '"'
+	}
+	var b strings.Builder
+	b.WriteByte(q)
+	i := 0
+	for _, r := range key {
+		i++
+		if mode == 2 && i%2 == 0 {
+			b.WriteString(QuoteKey(string(r), dq)[1 : len(QuoteKey(string(r), dq))-1])
+			continue
+		}
+		units := []rune{r}
+		if r >= 0x10000 {
+			r -= 0x10000
+			units = []rune{0xd800 + (r >> 10), 0xdc00 + (r & 0x3ff)}
+		}
+		for _, u := range units {
+			switch {
+			case mode == 0:
+				fmt.Fprintf(&b, `\u%04X`, u)
+			case mode == 1:
+				fmt.Fprintf(&b, `\u%04x`, u)
+			default:
+				h := fmt.Sprintf("%04x", u)
+				fmt.Fprintf(&b, `\u%s%s`, strings.ToUpper(h[:2]), h[2:])
+			}
+		}
+	}
+	b.WriteByte(q)
 	return b.String()
 }
 
